@@ -1,4 +1,4 @@
 ---- MODULE MC_err ----
 EXTENDS MachineRun
-Progs == ErrQuick
+Progs == ErrQuick(0)
 ====
